@@ -224,6 +224,25 @@ def statistic_flux_stream(ctx):
                         pass
         except Exception as e:
             fails.append('edited metadata: raised %r' % (e,))
+        # every way of omitting a required item, through both statistic classes (the catalog's way to the conversion)
+        try:
+            full = {'data_unit': rng.choice([u.Jy / u.beam, u.K]), 'spatial_scale': 2 * u.arcsec, 'beam_major': 4 * u.arcsec,
+                    'beam_minor': 3 * u.arcsec, 'wavelength': 3 * u.mm}
+            for cls in (PPStatistic, PPVStatistic):
+                with warnings.catch_warnings():
+                    warnings.simplefilter('ignore')
+                    idx3 = idx if len(idx) == (3 if cls is PPVStatistic else 2) else tuple(np.array([rng.randint(0, 5) for _ in range(n)]) for _ in range(3 if cls is PPVStatistic else 2))
+                    float(cls(ScalarStatistic(vals, idx3), dict(full)).flux.to(u.Jy).value)          # complete metadata: a number
+                    need = ['spatial_scale', 'beam_major', 'beam_minor'] + (['wavelength'] if full['data_unit'] == u.K else [])
+                    for item in need:
+                        md_ = {k_: v_ for k_, v_ in full.items() if k_ != item}
+                        try:
+                            got3 = cls(ScalarStatistic(vals, idx3), md_).flux
+                            fails.append('%s data without %s: %s.flux = %s instead of an error' % (full['data_unit'], item, cls.__name__, got3))
+                        except Exception:
+                            pass
+        except Exception as e:
+            fails.append('complete metadata: raised %r' % (e,))
         ctx.count('statistic_flux=%s' % dt)
         ctx.case_done(None, ('statflux', it))
         if fails:
